@@ -44,6 +44,16 @@ CHECKS.update({
         text="Exploration. Pairs (G, H) where H is a relabelled/shuffled copy of G, optionally with one edge rewired, reversed, re-predicated, dropped or a ground triple changed; G from random bnode graphs and from symmetric families where colour refinement cannot split cells (cycles, K_mn, disjoint identical components, circulants, Petersen, hypercubes, C6 vs 2xC3). isomorphic(), to_isomorphic equality, equality of canonical graphs, the three graph_diff parts and the skolemise/de-skolemise round trip are compared with the oracle's answer. rdflib's search runs under a per-case wall watchdog; timeouts are counted as skipped.",
         note="rv.iso is self-tested against brute force at setup; cases exceeding its budget are skipped and counted.",
         ref="DESIGN.md §3 C14"),
+    "C04": dict(
+        technique="runtime monitoring: differential of Graph/Dataset.query against an independent bottom-up SPARQL algebra evaluator fed the same generated query AST",
+        text="Exploration. Queries are generated as ASTs (BGPs, group joins, OPTIONAL with/without FILTER on inner/outer/unbound variables, UNION, MINUS, FILTER anywhere, BIND, VALUES with UNDEF, sub-SELECT hiding variables, GRAPH <iri>/?g over a Dataset, EXISTS/NOT EXISTS, comparison/logical/arithmetic/functional expressions; depth<=4; SELECT, ASK, CONSTRUCT), rendered to text for rdflib and evaluated by rv/model/sparqlref.py (spec section 18 algebra, section 17 expressions with three outcomes value/error/latitude) on the same data; solution multisets, ASK answers and constructed graphs must agree. The reference is calibrated on published spec examples at setup. Four listed deviation mechanisms of the top-down engine (binding push-down into non-BGP operands, VALUES left of OPTIONAL, errors through built-in function arguments, errors inside IN) are recognised on the input (AST, or the reference's own evaluation of it) before rdflib is consulted and those cases are not judged; the generator keeps about 70% of cases trigger-free.",
+        note="Cases whose answer SPARQL leaves open (=/!= across datatypes, < outside the operator table, NaN, decimal division precision) are dropped and counted. No FROM/SERVICE.",
+        ref="DESIGN.md §3 C04"),
+    "C15": dict(
+        technique="runtime monitoring: metamorphic pairs of executions of the real engine (rewritten query / prepared query / other store) compared as solution multisets",
+        text="Exploration. For generated queries (C04 generator plus property-path and aggregate queries) and data: permuting the triple patterns of every BGP, swapping adjacent join operands and UNION branches, renaming variables by a bijection, writing IRIs through PREFIX/BASE declarations (including two prefixes for one namespace), initBindings vs an added VALUES row, one prepared query evaluated on A, B, A, A, B against fresh parses (also when an evaluation raises), and the same data in Memory / SimpleMemory / AuditableStore(Memory) / a ReadOnlyGraphAggregate over a random disjoint partition must all give the same multiset of solutions. No reference evaluator is involved. Three listed findings (operand swap under binding push-down, path patterns repeated per member of an aggregate, initBindings seen by MINUS) are carved out by input predicates.",
+        note="Consistently wrong answers are invisible to this check by construction (that is C04's job).",
+        ref="DESIGN.md §3 C15"),
     "C06": dict(
         technique="runtime monitoring: Dataset serialise->parse round trip judged by dataset isomorphism (one bnode bijection over nodes and graph names); RDF Patch diff applied and compared",
         text="Exploration. Generated datasets (0-4 IRI- or bnode-named graphs, triples shared by several graphs, bnodes shared across graphs and used as graph names, empty/non-empty default graph, default_union on/off) are serialised as N-Quads, TriG, TriX, JSON-LD, HexTuples and RDF Patch(add) and parsed into an empty Dataset; the quad sets must be isomorphic with the default graph mapped to the default graph; serialising must not change the source. Patch lane: the diff between two related ground datasets (superset, subset, overlap, equal, disjoint, one quad moved) applied to the first must give the second. Listed findings (JSON-LD with bnode-named graphs / unrooted cycles / malformed lists, TriG+TriX bnode graph name used as node, Turtle numeric shorthand in TriG) are carved out by input predicates.",
